@@ -10,6 +10,7 @@ ROOT="$1"; OUT="$2"; CRATE="$3"; DEMO="$4"; CRATEDIR="${5:-}"
 WT="$ROOT/wt"; LOG="$ROOT/$OUT/confirm.log"; : > "$LOG"
 export CARGO_NET_OFFLINE=true CARGO_TARGET_DIR="$ROOT/target"
 HEAD=$(git -C /repo rev-parse HEAD)
+[ -d "$WT" ] || git -C /repo worktree add --detach "$WT" HEAD >/dev/null 2>&1
 cd "$WT" || exit 2
 git checkout -q -- . && git clean -qfd -e Cargo.lock && git checkout -q --detach "$HEAD" || exit 2
 cp /repo/Cargo.lock "$WT/Cargo.lock"
@@ -19,12 +20,13 @@ case "$CRATE" in
 esac
 [ -n "$CRATEDIR" ] && D="$CRATEDIR"
 TEST=$(basename "$DEMO" .rs)
+CREATED_TESTS_DIR=0; [ -d "$WT/$D/tests" ] || { mkdir -p "$WT/$D/tests"; CREATED_TESTS_DIR=1; }
 cp "$ROOT/$OUT/demo/$DEMO" "$WT/$D/tests/$DEMO" || exit 2
 run_demo() { nice -n 5 cargo test -p "$CRATE" --offline -j 6 --test "$TEST" -- --test-threads 4 >>"$LOG" 2>&1; }
 echo "== demo without patch" >>"$LOG"; run_demo; A=$?
 git apply "$ROOT/$OUT/patch.diff" >>"$LOG" 2>&1 || { echo "PATCH DOES NOT APPLY"; exit 2; }
 echo "== demo with patch" >>"$LOG"; run_demo; B=$?
-rm -f "$WT/$D/tests/$DEMO"
+rm -f "$WT/$D/tests/$DEMO"; [ $CREATED_TESTS_DIR -eq 1 ] && rmdir "$WT/$D/tests"
 echo "== existing tests of $CRATE with patch" >>"$LOG"
 nice -n 5 cargo test -p "$CRATE" --offline -j 6 -- --test-threads 6 >>"$LOG" 2>&1; C=$?
 git checkout -q -- .
